@@ -259,12 +259,12 @@ Definition f_pitch (f : fvoice) : Z := v_pitch (f_voice f).
 
 Definition place (o : Z) (e : event) : list fvoice := map (mkFV o) (e_voices e).
 
-(* stable insertion sort by release tick: Track.note_offs is kept in insertion order and on every tick
+(* stable insertion sort by release tick (fold_right inserts earlier voices into the sorted later ones, so ties go first): Track.note_offs is kept in insertion order and on every tick
    the due entries are sent in list order, so over several ticks the order is (release tick, insertion) *)
 Fixpoint ins_rel (f : fvoice) (l : list fvoice) : list fvoice :=
   match l with
   | [] => [f]
-  | g :: r => if f_rel f <? f_rel g then f :: l else g :: ins_rel f r
+  | g :: r => if f_rel f <=? f_rel g then f :: l else g :: ins_rel f r
   end.
 Definition sort_rel (l : list fvoice) : list fvoice := fold_right ins_rel [] l.
 
